@@ -354,8 +354,6 @@ def main():
     json.dump(m, open("/verif/MANIFEST.json", "w"), indent=1)
     open("/verif/MANIFEST.json", "a").write("\n")
 
-if __name__ == "__main__":
-    main()
 
 # tenth pass
 _amend("C01", "text", "Decides twenty-five structural necessary conditions of JS behaviour preservation (R01.1-R01.25,", "Decides twenty-eight structural necessary conditions of JS behaviour preservation (R01.1-R01.28; R01.28 reports three known findings, the Math.trunc / Math.abs / isNaN rewrites, pinned by the suite;")
@@ -371,3 +369,32 @@ _amend("C06", "text", "CDATA byte round trips and white space inside PI content 
 _amend("C03", "text", "Decides seventeen local clauses (R03.1-R03.17 incl. R03.5c-f,", "Decides eighteen local clauses (R03.1-R03.18 incl. R03.5c-f,")
 _amend("C04", "text", "(R04.1-R04.17, DESIGN.md §4 C04;", "(R04.1-R04.18, DESIGN.md §4 C04;")
 _amend("C04", "text", "Decides seventeen structural clauses only", "Decides eighteen structural clauses only")
+
+# eleventh pass
+_amend("C01", "text", "(R01.1-R01.28;", "(R01.1-R01.29;")
+_amend("C01", "text", "Decides twenty-eight structural", "Decides twenty-nine structural")
+_amend("C04", "text", "(R04.1-R04.18, DESIGN.md §4 C04;", "(R04.1-R04.20, DESIGN.md §4 C04;")
+_amend("C04", "text", "Decides eighteen structural clauses only", "Decides twenty structural clauses only")
+_amend("C10", "text", "(R10.1-R10.15,", "(R10.1-R10.17,")
+_amend("C10", "text", "Decides fifteen structural clauses", "Decides seventeen structural clauses")
+_amend("C10", "text", "Absence of panics and linear time in general are NOT decided.", "The output buffer of the byte-slice entry point shares no allocation with the input copy (SSA), and the helper that folds statements into a comma expression extends its accumulator in place. Absence of panics and linear time in general are NOT decided.")
+_amend("C11", "text", "(R11.1-R11.10, DESIGN.md §4 C11;", "(R11.1-R11.10 with R11.9a-d, DESIGN.md §4 C11;")
+_amend("C19", "text", "(R19.1-R19.22,", "(R19.1-R19.23,")
+_amend("C11", "text", "Code in an HTML attribute is decoded before and its ampersands escaped after its minifier;", "Code in an HTML attribute is decoded before and its ampersands escaped after its minifier, the in-place decoder works on a copy of the token's bytes and the escaper decides each ampersand from the byte that follows it alone;")
+_amend("C12", "text", "(R12.1-R12.7, DESIGN.md §4 C12)", "(R12.1-R12.8, DESIGN.md §4 C12)")
+_amend("C12", "text", "middlewares always Close.", "middlewares always Close; the output buffer of M.Bytes has no base allocation in common with the input copy it reads (SSA).")
+_amend("C12", "tech", "ordering/domination rules", "SSA base-allocation (alias) comparison of the writer's and the reader's buffers, ordering/domination rules")
+_amend("C14", "text", "(R14.1-R14.6, DESIGN.md §4 C14)", "(R14.1-R14.7, DESIGN.md §4 C14); a buffered writer the library puts in front of the destination is flushed and the flush's error kept")
+_amend("C17", "text", "never inherits the traits of the tag that used its slot before.", "never inherits the traits of the tag that used its slot before, and the traits assigned are the table entry of the token's own name (no borrowing from a related name).")
+_amend("C18", "text", "(R18.1-R18.8, DESIGN.md §4 C18):", "(R18.1-R18.9, DESIGN.md §4 C18):")
+_amend("C18", "text", "Two known findings:", "The base64 text is encoded into freshly allocated memory (SSA: every base of the destination is a make in DataURI). Two known findings:")
+_amend("C18", "tech", "cross-listed lookup", "SSA base-allocation check of the base64 destination, cross-listed lookup")
+_amend("C01", "text", "(R01.1-R01.29;", "(R01.1-R01.34;")
+_amend("C01", "text", "Decides twenty-nine structural", "Decides thirty-four structural")
+_amend("C04", "text", "(R04.1-R04.20, DESIGN.md §4 C04;", "(R04.1-R04.21, DESIGN.md §4 C04;")
+_amend("C04", "text", "Decides twenty structural clauses only", "Decides twenty-one structural clauses only")
+_amend("C09", "text", "(R09.1, R09.3-R09.20, DESIGN.md §4 C09;", "(R09.1, R09.3-R09.21, DESIGN.md §4 C09;")
+_amend("C05", "text", "Decides (R05.1-R05.21, DESIGN.md §4 C05):", "Decides (R05.1-R05.22, DESIGN.md §4 C05; path data that contains a character reference is not parsed):")
+
+if __name__ == "__main__":
+    main()
